@@ -174,9 +174,9 @@ def _abstract_array_predicates(formulas):
         if t.get_id() in seen:
             return
         seen.add(t.get_id())
-        if z3.is_app(t) and t.decl().kind() == z3.Z3_OP_UNINTERPRETED and t.num_args() > 0 and z3.is_bool(t) \
+        if z3.is_app(t) and t.decl().kind() == z3.Z3_OP_UNINTERPRETED and t.num_args() > 0 and t.sort().kind() != z3.Z3_ARRAY_SORT \
                 and any(a.sort().kind() == z3.Z3_ARRAY_SORT for a in t.children()):
-            subs[t.get_id()] = (t, z3.Bool(f"abs!{t.decl().name()}!{t.get_id()}"))
+            subs[t.get_id()] = (t, z3.Const(f"abs!{t.decl().name()}!{t.get_id()}", t.sort()))
             return
         if z3.is_quantifier(t):
             visit(t.body(), seen)
@@ -482,6 +482,8 @@ def as_real(x):
             raise ShadowAbort("non-finite float in real-valued obligation")
         from fractions import Fraction
         return SymReal(z3.RealVal(str(Fraction(x))))  # the exact value of the double
+    if getattr(x, "scalar", False) and hasattr(x, "at"):  # 0-d tensor proxy
+        return SymReal(x.at(0))
     raise ShadowAbort(f"cannot use {type(x).__name__} as Real")
 
 
